@@ -228,7 +228,129 @@ class Ctx(object):
             ev = S.Evaluator(self.fns, inline_depth=depth, inline_filter=inline_filter)
         ev.consts = self.consts
         ev.new_const = self.new_const
+        ev.obs = self.obs_fields()
         return ev
+
+    def obs_fields(self):
+        """Struct fields that only *observe* the run: written (and self-updated), logged, formatted by Debug /
+        Display, handed out by an accessor nobody uses for a decision -- never read by the library's own logic.
+        Writes to them cannot change behaviour, so they are not effects of any script or table."""
+        if getattr(self, '_obs', None) is not None:
+            return self._obs
+        occ = {}   # (adt, field) -> set of classes {'write','self','log','fmt','neutral','read','acc:<fn>'}
+        accessor_reads = {}
+
+        def adt_of(node):
+            return S.norm_path(canon.strip_ty(node.get('ty') or ''))
+
+        def visit(n, fnp, fn, in_log, lhs_keys, role, in_fmt):
+            """role: 'read' | 'write' (the assigned place itself) | ('proj', cls) (base of a projection whose leaf access has class cls)"""
+            if not isinstance(n, dict):
+                return
+            k = n.get('k')
+            if k == 'MacroCall' and n.get('name') in H.LOG_MACROS:
+                in_log = True
+            if k in ('Assign', 'AssignOp'):
+                lk = place_keys(n['l'])
+                visit(n['l'], fnp, fn, in_log, lhs_keys, 'write', in_fmt)
+                visit(n['r'], fnp, fn, in_log, lhs_keys | set(lk), 'read', in_fmt)
+                return
+            if k in ('AddrOf', 'Unary', 'Paren', 'DropTemps') and role == 'write' and n.get('e') is not None:
+                visit(n['e'], fnp, fn, in_log, lhs_keys, 'write', in_fmt)
+                return
+            if k == 'Field':
+                key = (adt_of(n['e']), n['name'])
+                if role == 'write':
+                    cls = 'write'
+                elif isinstance(role, tuple):
+                    cls = 'neutral' if role[1] in ('write', 'neutral', 'self', 'log', 'fmt') or role[1].startswith('acc:') else 'read'
+                elif in_log:
+                    cls = 'log'
+                elif in_fmt:
+                    cls = 'fmt'
+                elif key in lhs_keys:
+                    cls = 'self'
+                elif fn.get('_accessor_of') == key:
+                    cls = 'acc:' + fnp
+                else:
+                    cls = 'read'
+                occ.setdefault(key, set()).add(cls)
+                visit(n['e'], fnp, fn, in_log, lhs_keys, ('proj', cls), in_fmt)
+                return
+            for _, c in H.children(n):
+                visit(c, fnp, fn, in_log, lhs_keys, 'read', in_fmt)
+
+        def place_keys(l):
+            out = []
+            x = H.peel(l)
+            while x.get('k') == 'Field':
+                out.append((adt_of(x['e']), x['name']))
+                x = H.peel(x['e'])
+            return out
+
+        # accessors: fn(&self) -> T whose body is just `self.f` (possibly copied / cloned)
+        for p, fn in self.fns.items():
+            if 'hir' not in fn or fn.get('cfg_test') or len(fn.get('params', [])) != 1:
+                continue
+            b = H.peel(fn['hir'])
+            while b.get('k') == 'Block' and not b['stmts'] and b.get('expr') is not None:
+                b = H.peel(b['expr'])
+            if b.get('k') == 'Field' and H.peel(b['e']).get('k') == 'Local':
+                fn['_accessor_of'] = (adt_of(b['e']), b['name'])
+        for p, fn in self.fns.items():
+            if 'hir' not in fn or fn.get('cfg_test'):
+                continue
+            in_fmt = fn.get('impl_trait') in ('std::fmt::Debug', 'std::fmt::Display') or bool(fn.get('mac'))
+            visit(fn['hir'], p, fn, False, frozenset(), 'read', in_fmt)
+        obs = set()
+        for key, classes in occ.items():
+            if key[0] not in self.adts:
+                continue
+            bad = False
+            for c in classes:
+                if c == 'read':
+                    bad = True
+                elif c.startswith('acc:'):
+                    accp = c[4:]
+                    # the accessor's value must itself only be logged (or the accessor be unused inside the crate)
+                    for caller in self.cg.callers(accp):
+                        cf = self.fns.get(re.sub(r'(::\{closure#\d+\})+$', '', caller))
+                        if cf is None or 'hir' not in cf:
+                            bad = True
+                            continue
+                        for cn, chain in [(x, None) for x in H.walk(cf['hir'])]:
+                            pass
+                        calls_outside_log = False
+                        def scan(n, in_log):
+                            nonlocal calls_outside_log
+                            if not isinstance(n, dict):
+                                return
+                            if n.get('k') == 'MacroCall' and n.get('name') in H.LOG_MACROS:
+                                in_log = True
+                            if n.get('k') in ('Call', 'MethodCall') and S.norm_path(H.callee_path(n) or '') == accp and not in_log:
+                                calls_outside_log = True
+                            for _, c2 in H.children(n):
+                                scan(c2, in_log)
+                        scan(cf['hir'], False)
+                        if calls_outside_log:
+                            bad = True
+            if not bad and 'write' in classes:
+                obs.add(key)
+        # a field whose own uses are only projections into observation-only fields (a stats struct) is one too
+        changed = True
+        while changed:
+            changed = False
+            for key, classes in occ.items():
+                if key in obs or key[0] not in self.adts:
+                    continue
+                if classes <= {'neutral', 'log', 'fmt', 'self'} and 'neutral' in classes:
+                    fld = [f for f in self.adts[key[0]]['variants'][0]['fields'] if f['name'] == key[1]] if self.adts[key[0]].get('variants') else []
+                    fty = S.norm_path(canon.strip_ty(fld[0]['ty'])) if fld else None
+                    if fty in self.adts and all((fty, f2['name']) in obs or (fty, f2['name']) not in occ for f2 in self.adts[fty]['variants'][0]['fields']) and any((fty, f2['name']) in obs for f2 in self.adts[fty]['variants'][0]['fields']):
+                        obs.add(key)
+                        changed = True
+        self._obs = obs
+        return obs
 
     def new_const(self, path):
         if getattr(self, '_vocab_consts', None) is None:
